@@ -39,6 +39,32 @@ def run(ctx):
         tags[r["tag"]] = tags.get(r["tag"], 0) + 1
         ctx.distinct.add((r["tag"], len(r["in"]), tuple(x["k"] for x in r["results"])[:3]))
     recs = recs + drecs
+    # re-keying and re-stamping at a node: a received signed frame (signed under another key), edited or not, then
+    # Node.FixFrame under the node's outgoing key: the result carries a signature that verifies under THAT key
+    import json
+    mod = 8 if ctx.thorough() else 40
+    rc, out = ctx.tlc("Gen_Route", env={"DEFS": defs, "DIALECT": defs + ".all.json", "VECMOD": mod, "VECOFF": ctx.seed % mod},
+                      tag="gen:route", timeout=1800)
+    if _stream.parse_vec_lines(out, ctx.path("routevec.ndjson")) == 0:
+        raise vf.Inconclusive("Gen_Route produced no vectors:\n" + vf.tail(out, 30))
+    trr = ctx.path("route.ndjson")
+    ctx.run_mvh(["route", "-vectors", ctx.path("routevec.ndjson"), "-out", trr, "-seed", ctx.seed, "-tier", ctx.tier])
+    fixes = [r for r in vf.read_ndjson(trr) if r["e"] == "FIX" and r["var"] == "signed" and r["key"]]
+    if not fixes:
+        raise vf.Inconclusive("no re-keying record was produced")
+    pfix = ctx.path("c06fix.ndjson")
+    with open(pfix, "w") as f:
+        for r in fixes:
+            f.write(json.dumps(r) + "\n")
+    for (_, rejects, walked, _) in ctx.validate("Trace_Reader", [pfix], env={"DEFS": defs}):
+        for (line, seq, kind, clauses, _) in rejects:
+            mine = [c for c in clauses if c in ("signature_valid_under_out_key", "accepted_at_next_hop", "no_panic")]
+            if any(c.startswith("H_") for c in clauses) and not ctx.findings:
+                raise vf.Inconclusive("harness sanity clause failed: %s" % clauses)
+            if mine:
+                r = fixes[line - 1]
+                ctx.finding("FIX:%s:edit=%s" % ("+".join(sorted(mine)), r["edit"]), "re-keyed frame (edit %s) rejected by %s" % (r["edit"], mine), r)
+    ctx.cov["rekeyed_frames"] = len(fixes)
     # writer side
     trw = ctx.path("c06w.ndjson")
     ctx.run_mvh(["wlink", "-aux", "c06", "-out", trw, "-seed", ctx.seed, "-tier", ctx.tier])
